@@ -1097,6 +1097,9 @@ GEOMS = {
     "zigzag": [[0.5, 1.0, 1.0], [4.3, 1.0, 1.0], [2.4, 1.0, 1.0], [6.2, 1.0, 1.0]],
     # straddle: first atom inside the box, the rest (and the centroid) across the face x = 0
     "straddle": [[0.3, 1.0, 1.0], [-0.7, 1.0, 1.0], [-0.7, 2.0, 1.0], [-1.7, 2.0, 1.0]],
+    # onface: a unit square around the z axis - the centroid of 2 and 4 atoms lies EXACTLY on the faces x = 0 / y = 0
+    # (tie of remove_pbc's centre step: either side of the face is inside the box)
+    "onface": [[0.5, 0.5, 1.0], [-0.5, 0.5, 1.0], [-0.5, -0.5, 1.0], [0.5, -0.5, 1.0]],
 }
 W27 = np.array(list(itertools.product([-1, 0, 1], repeat=3)), dtype=np.float64)
 
@@ -2468,6 +2471,186 @@ def run_precedence(shard, ctx, focus=None):
                         "without a BondList the segmentation must be removed per chain", fc)
 
 
+def run_boundary(shard, ctx, focus=None):
+    """third audit: F second operands that are larger / refer to atoms that do not exist; G numpy error state and the
+    warnings filter as ambient state; I boundary values of compared quantities - exact half-box ties of the minimum image,
+    NaN rows, equal variances in orient_principal_components"""
+    import warnings
+
+    import biotite.structure as struc
+
+    rep = Reporter(ctx, shard)
+    focus = None                      # small shard: a replay runs all of it
+    calls = audit_calls()
+    # ---- G: ambient numpy error state / warnings filter / print options: same results as under the defaults
+    for name, fn, args, kw in calls:
+        with np.errstate(all="ignore"):
+            ref = fn(*args, **kw)
+        for amb in ("errstate_raise", "warnings_error", "printoptions"):
+            fc = {"call": name, "ambient": amb, "cls": amb}
+            ctx.journal(json.dumps({"s": shard, "f": fc}))
+            ctx.ev(1, 1)
+            old_print = np.get_printoptions()
+            try:
+                if amb == "errstate_raise":
+                    with np.errstate(all="raise"):
+                        got = fn(*args, **kw)
+                elif amb == "warnings_error":
+                    with warnings.catch_warnings():
+                        warnings.simplefilter("error")
+                        with np.errstate(all="warn"):
+                            got = fn(*args, **kw)
+                else:
+                    np.set_printoptions(precision=1, threshold=3, suppress=True)
+                    got = fn(*args, **kw)
+            except Exception as e:  # noqa: BLE001
+                rep.bad("%s|raises_%s|%s" % (name, type(e).__name__, amb),
+                        "an ordinary (non-degenerate) call fails when the caller has set %s" % amb, fc, "same result",
+                        "%s: %s" % (type(e).__name__, str(e)[:120]))
+                continue
+            finally:
+                np.set_printoptions(**old_print)
+            if not _same(ref, got):
+                rep.bad("%s|depends_on_ambient_state|%s" % (name, amb), "the result depends on %s" % amb, fc)
+            else:
+                ctx.outcome(("ambient", name, amb))
+    # ---- I: a NaN row must not disturb the other rows (row-wise functions), and must not raise
+    kk = np.arange(1, 22, dtype=float)[:, None]
+    gen = f32(1.0 + 0.5 * np.modf(kk * np.sqrt(np.array([2.0, 3.0, 5.0])))[0])
+    A, B, C, D = gen[0:7], gen[7:14] + 3, gen[14:21], gen[0:7][::-1] + 0.25
+    box_t, box_o = f32(box_of("t2")), f32(np.diag([5.0, 4.0, 6.0]))
+    rowwise = [("displacement", lambda a: struc.displacement(a, B)), ("displacement_ortho", lambda a: struc.displacement(a, B, box=box_o)),
+               ("displacement_triclinic", lambda a: struc.displacement(a, B, box=box_t)),
+               ("distance_triclinic", lambda a: struc.distance(B, a, box=box_t)), ("angle", lambda a: struc.angle(a, B, C)),
+               ("angle_box", lambda a: struc.angle(C, a, B, box=box_o)), ("dihedral", lambda a: struc.dihedral(a, B, C, D)),
+               ("dihedral_box", lambda a: struc.dihedral(D, C, a, B, box=box_t)),
+               ("move_inside_box", lambda a: struc.move_inside_box(a * 4, box_t)),
+               ("coord_to_fraction", lambda a: struc.coord_to_fraction(a, box_t)),
+               ("translate", lambda a: struc.translate(a, [1, 2, 3])), ("rotate", lambda a: struc.rotate(a, [0.1, 1, 2.5]))]
+    for bad_val in (np.nan, np.inf):
+        An = A.copy()
+        An[3] = bad_val
+        keep = np.arange(7) != 3
+        for name, fn in rowwise:
+            fc = {"call": name, "value": repr(bad_val), "cls": "nonfinite_row"}
+            ctx.journal(json.dumps({"s": shard, "f": fc}))
+            ctx.ev(7, 6)
+            with np.errstate(all="ignore"):
+                ref = np.asarray(fn(A))
+            got = call(rep, name, fc, fn, An)
+            if got is None:
+                continue
+            got = np.asarray(got)
+            if got.shape != ref.shape or not np.array_equal(got[keep], ref[keep]):
+                rep.bad("%s|nonfinite_row_disturbs_other_rows|%s" % (name, "nan" if bad_val != bad_val else "inf"),
+                        "a non-finite coordinate in one atom changed the result of other atoms", fc)
+            else:
+                ctx.count("unspecified", 1)       # the value of the non-finite row itself
+                ctx.outcome(("nanrow", name, repr(bad_val)))
+    # ---- I: exact ties of the minimum image: the two atoms are exactly half a box vector (plus whole vectors) apart
+    for bname in ("o_3_3_3", "o_2_5_9", "lefthanded", "rot_ortho", "t2", "upper"):
+        bx = box_of(bname)
+        ortho = box_is_ortho(bx)
+        hmin = geom.box_heights(bx).min()
+        p1 = (np.array([0.25, 0.5, 0.125]) @ bx)
+        for half in itertools.product((0.0, 0.5, -0.5), repeat=3):
+            if not any(half):
+                continue
+            for whole in ((0, 0, 0), (1, -2, 0), (-1, 0, 2)):
+                fr = np.array(half) + np.array(whole)
+                p2 = p1 + fr @ bx
+                fc = {"box": bname, "half": list(half), "whole": list(whole), "cls": "ortho" if ortho else "triclinic"}
+                ctx.journal(json.dumps({"s": shard, "f": fc}))
+                ctx.ev(3, 3)
+                _, d2 = geom.min_image_vectors((np.array(half) @ bx)[None], bx, k=4)
+                lmin = float(np.sqrt(d2[0]))
+                for form, a1, a2 in (("vec", f32(p1), f32(p2)), ("arr", f32([p1, p1]), f32([p2, p2])),
+                                     ("stack", f32([[p1]]), f32([[p2]]))):
+                    got = call(rep, "displacement", fc, struc.displacement, a1, a2, box=f32(bx))
+                    if got is None:
+                        continue
+                    g = np.asarray(got, dtype=float).reshape(-1, 3)
+                    plain = (np.asarray(a2, dtype=float) - np.asarray(a1, dtype=float)).reshape(-1, 3)
+                    res, _ = geom.lattice_residual(g - plain, bx)
+                    ln = np.sqrt((g * g).sum(axis=1))
+                    demand = ortho or lmin < hmin / 2 - 1e-3
+                    if not np.isfinite(g).all() or (res > 1e-4 * np.abs(bx).max()).any():
+                        rep.bad("displacement|not_lattice_equivalent|half_box_tie", "at an exact tie of the minimum image the "
+                                "displacement is not an image of the plain difference (or not finite)", fc, plain[0].tolist(), g[0].tolist())
+                    elif demand and (np.abs(ln - lmin) > 1e-4 * np.abs(bx).max()).any():
+                        rep.bad("displacement|not_shortest_image|half_box_tie", "at an exact tie neither of the tied shortest "
+                                "images was returned", fc, lmin, ln.tolist())
+                    else:
+                        ctx.outcome(("tie", bname, half, whole, form))
+    # ---- I: equal variances / degenerate variance in orient_principal_components
+    sets = {"cube": list(itertools.product((-1.0, 1.0), repeat=3)), "tetrahedron": [[1, 1, 1], [1, -1, -1], [-1, 1, -1], [-1, -1, 1]],
+            "octahedron": [[2, 0, 0], [-2, 0, 0], [0, 2, 0], [0, -2, 0], [0, 0, 2], [0, 0, -2]],
+            "square": [[1, 1, 0], [-1, 1, 0], [-1, -1, 0], [1, -1, 0]], "collinear": [[0, 0, 0], [1, 1, 1], [3, 3, 3]],
+            "duplicates": [[1, 2, 3]] * 4 + [[2, 2, 3]], "two_equal_axes": [[2, 0, 0], [-2, 0, 0], [0, 2, 0], [0, -2, 0], [0, 0, 1], [0, 0, -1]]}
+    for sname, pts in sets.items():
+        X = np.array(pts, dtype=float) + np.array([4.0, -1.0, 2.5])
+        for order in (None, [2, 0, 1], [1, 2, 0]):
+            fc = {"set": sname, "order": order, "cls": "variance_tie"}
+            ctx.ev(1, 1)
+            got = call(rep, "orient_principal_components", fc, struc.orient_principal_components, f32(X),
+                       **({} if order is None else {"order": order}))
+            if got is None:
+                continue
+            g = np.asarray(got, dtype=float)
+            if g.shape != X.shape or not np.isfinite(g).all() or not (np.abs(all_pair_dist(g) - all_pair_dist(X)) <= 2e-4).all():
+                rep.bad("orient_principal_components|not_rigid|variance_tie", "with equal / zero variances the result is not a "
+                        "rigid image of the input", fc)
+            elif np.abs(g.mean(axis=0)).max() > 2e-4:
+                rep.bad("orient_principal_components|not_centered|variance_tie", "centroid not at the origin", fc)
+            elif len(X) >= 4 and abs(np.linalg.det(X[1:4] - X[0])) > 1e-6 and \
+                    np.sign(np.linalg.det(X[1:4] - X[0])) != np.sign(np.linalg.det(g[1:4] - g[0])):
+                rep.bad("orient_principal_components|improper|variance_tie", "chirality flipped", fc)
+            else:
+                ctx.outcome(("orient_tie", sname, str(order)))
+    # ---- F: second operands that are larger than the first / name atoms the first does not have
+    P = A.copy()
+    snap = P.copy()
+    arr = to_object(P)
+    arr.box = box_o
+    beyond = [("index_distance", np.array([[0, 7]])), ("index_distance", np.array([[0, 1], [2, 99]])),
+              ("index_angle", np.array([[0, 1, 7]])), ("index_dihedral", np.array([[7, 1, 2, 3]])),
+              ("index_displacement", np.array([[0, -8]]))]
+    for fname, idx in beyond:
+        for obj, kw in ((P, {}), (arr, {"periodic": True})):
+            ctx.ev(1, 1)
+            ctx.count("refused")
+            try:
+                getattr(struc, fname)(obj, idx, **kw)
+                rep.bad("%s|accepted|index_beyond_length" % fname, "an index beyond the number of atoms was accepted",
+                        {"cls": "index_beyond_length"}, "IndexError", "returned")
+            except Exception:  # noqa: BLE001
+                pass
+    if not np.array_equal(P, snap) or not np.array_equal(arr.coord, snap):
+        rep.bad("index_distance|argument_modified|refused_call", "a refused call changed the coordinates", {"cls": "refused"})
+    S3 = f32(np.stack([A, B, C]))
+    for nbox, cls in ((4, "more_boxes_than_models"), (2, "fewer_boxes_than_models"), (1, "one_box_in_a_stack_of_boxes")):
+        boxes = f32(np.stack([box_o * (1 + 0.25 * k) for k in range(nbox)]))
+        for fname, fn in (("displacement", lambda: struc.displacement(S3, S3[::-1].copy(), box=boxes)),
+                          ("move_inside_box", lambda: struc.move_inside_box(S3, boxes)),
+                          ("coord_to_fraction", lambda: struc.coord_to_fraction(S3, boxes)),
+                          ("repeat_box_coord", lambda: struc.repeat_box_coord(S3, boxes)[0])):
+            ctx.ev(1, 1)
+            ctx.count("unspecified")          # a box stack of another depth than the coordinates: statement silent
+            try:
+                with np.errstate(all="ignore"):
+                    r = fn()
+                if not np.isfinite(np.asarray(r, dtype=float)).all():
+                    rep.bad("%s|nonfinite_result|%s" % (fname, cls), "finite input gave a non-finite result", {"cls": cls})
+            except Exception:  # noqa: BLE001
+                ctx.count("unspecified_refused")
+    # more index rows than atoms and an index array much longer than the structure are ordinary inputs
+    idx = np.array(list(itertools.product(range(7), repeat=2)) * 3)
+    ctx.ev(len(idx), len(idx))
+    d = call(rep, "index_distance", {"cls": "more_rows_than_atoms"}, struc.index_distance, arr, idx, periodic=True)
+    if d is not None and not np.array_equal(d, struc.distance(P[idx[:, 0]], P[idx[:, 1]], box=box_o)):
+        rep.bad("index_distance|value|more_rows_than_atoms", "index array with more rows than atoms", {"cls": "more_rows_than_atoms"})
+
+
 def run_edge(shard, ctx, focus=None):
     """empty and singleton pieces"""
     import biotite.structure as struc
@@ -2584,8 +2767,9 @@ def shards(tier, seed):
         out.append({"kind": "unitcell", "lengths": li})
     for gname in GEOMS:
         for n in (1, 2, 3, 4):
-            if tier == "quick":
-                # zigzag / straddle with 4 atoms: <= 1 wrapped atom at the quick tier (thorough: <= 3)
+            if tier == "quick" or gname == "onface":
+                # zigzag / straddle with 4 atoms: <= 1 wrapped atom at the quick tier (thorough: <= 3);
+                # onface (third audit) is identical in both tiers
                 maxw = 1 if (n == 4 and gname != "compact") else 2
                 parts = 8 if (n == 4 and maxw == 2) else 2 if n == 4 else 1
             else:
@@ -2610,6 +2794,7 @@ def shards(tier, seed):
     out.append({"kind": "identity"})
     out.append({"kind": "derived"})
     out.append({"kind": "edge"})
+    out.append({"kind": "boundary"})
     out.append({"kind": "precedence", "boxes": "ortho"})
     out.append({"kind": "precedence", "boxes": "triclinic"})
     rots = range(24) if tier == "thorough" else [(7 * seed + k) % 24 for k in (2, 9, 16, 23)]
@@ -2632,7 +2817,7 @@ RUNNERS.update({"dist": run_dist, "angle": run_angle, "dihedral": run_dihedral, 
                 "shapes": run_shapes, "dispbox": run_dispbox, "boxhelpers": run_boxhelpers, "unitcell": run_unitcell, "pbc": run_pbc, "transform": run_transform, "backbone": run_backbone,
                 "models": run_models, "order": run_order, "alias": run_alias, "flavour": run_flavour, "edge": run_edge,
                 "flavour_pairs": run_flavour_pairs, "identity": run_identity, "derived": run_derived,
-                "precedence": run_precedence})
+                "precedence": run_precedence, "boundary": run_boundary})
 
 
 def run_shard(shard, ctx):
